@@ -559,8 +559,10 @@ def table(pid, tier):
         insts = [effects(tier, 0), effects(tier, 4), effects(tier, 5), effects(tier, 1), effects(tier, 3)] + \
             ([] if q else [effects(tier, 2)])
         inv = ["C11_AtMostOnce", "C11_Once", "C11_Worker", "C11_Followup", "C11_Once_strict"]
-        T = dict(mc=[(i, inv, ["C11_QuietAfterStop"]) for i in insts], gen=[(i, 500 if q else 10000) for i in insts[:4]],
-                 free=[(i, 80 if q else 500) for i in insts] + [(saturate(tier), 3 if q else 12)])
+        mw = middleware(tier, 2)       # every verdict at every hook: no verdict of before_effect removes an effect
+        T = dict(mc=[(i, inv, ["C11_QuietAfterStop"]) for i in insts] + [(mw, inv, [])],
+                 gen=[(i, 450 if q else 10000) for i in insts[:4]] + [(mw, 400 if q else 10000)],
+                 free=[(i, 70 if q else 500) for i in insts] + [(mw, 40 if q else 500), (saturate(tier), 3 if q else 12)])
     elif pid == "C12":
         insts = [middleware(tier, 1), middleware(tier, 2)] + ([] if q else [middleware(tier, 3)])
         inv = ["C12_Veto", "C12_Suppress", "C01_Fold", "C07_ReducerContext"]
